@@ -121,6 +121,8 @@ def extended_mps_factors(
     """
     assert len(mps_factors) == sum(1 for b in where if b)
 
+    # dark qubits have as many levels as the others (3 with a leakage level)
+    dim = mps_factors[0].shape[1] if mps_factors else 2
     bond_dimension = 1
     factor_index = 0
     result = []
@@ -133,7 +135,7 @@ def extended_mps_factors(
             factor_index += 1
         elif factor_index == len(mps_factors):
             factor = torch.zeros(
-                bond_dimension, 2, 1, dtype=torch.complex128
+                bond_dimension, dim, 1, dtype=torch.complex128
             )  # FIXME: assign device
             factor[:, 0, :] = torch.eye(bond_dimension, 1)
             bond_dimension = 1
@@ -141,7 +143,7 @@ def extended_mps_factors(
         else:
             factor = torch.zeros(
                 bond_dimension,
-                2,
+                dim,
                 bond_dimension,
                 dtype=torch.complex128,  # FIXME: assign device
             )
@@ -159,6 +161,8 @@ def extended_mpo_factors(
     """
     assert len(mpo_factors) == sum(1 for b in where if b)
 
+    # dark qubits have as many levels as the others (3 with a leakage level)
+    dim = mpo_factors[0].shape[1] if mpo_factors else 2
     bond_dimension = 1
     factor_index = 0
     result = []
@@ -170,17 +174,17 @@ def extended_mpo_factors(
             bond_dimension = mpo_factors[factor_index].shape[3]
             factor_index += 1
         elif factor_index == len(mpo_factors):
-            factor = torch.zeros(bond_dimension, 2, 2, 1, dtype=torch.complex128)
-            factor[:, 0, 0, :] = torch.eye(bond_dimension, 1)
-            factor[:, 1, 1, :] = torch.eye(bond_dimension, 1)
+            factor = torch.zeros(bond_dimension, dim, dim, 1, dtype=torch.complex128)
+            for level in range(dim):
+                factor[:, level, level, :] = torch.eye(bond_dimension, 1)
             bond_dimension = 1
             result.append(factor)
         else:
             factor = torch.zeros(
-                bond_dimension, 2, 2, bond_dimension, dtype=torch.complex128
+                bond_dimension, dim, dim, bond_dimension, dtype=torch.complex128
             )
-            factor[:, 0, 0, :] = torch.eye(bond_dimension, bond_dimension)
-            factor[:, 1, 1, :] = torch.eye(bond_dimension, bond_dimension)
+            for level in range(dim):
+                factor[:, level, level, :] = torch.eye(bond_dimension, bond_dimension)
             result.append(factor)
     return result
 
